@@ -44,6 +44,8 @@ Proof.
       destruct H as [e [E1 E2]]. apply in_map_iff. exists e. auto.
     + exact N3.
     + intros a' r' b H Hb. apply (c_q2 _ _ _ C a' r' b); auto.
+    + intros x Hx. apply (c_ifl_sync _ _ _ C). unfold ifl in *. simpl in Hx. apply in_map_iff in Hx.
+      destruct Hx as [e [E1 E2]]. apply in_map_iff. exists e. auto.
   - apply (c_ifl_st _ _ _ C). auto.
   - intros b Hb. apply (c_q2 _ _ _ C a r b); auto.
   - intros e He H. apply N4. rewrite <- H. unfold ifl in He. simpl in He. apply in_map. auto.
